@@ -618,8 +618,10 @@ impl<'a> Runner<'a> {
           // again): no property claims such builds (11.2); tasks may legitimately have run on inputs that the aborted
           // build left half-updated.
           let unclaimed_bu_after_abort = matches!(kind, SessionKind::BottomUp { .. }) && dirty_at_start;
-          if tainted_before || unclaimed_bu_after_abort || slice.iter().any(|e| matches!(e, Ev::MidChange { .. })) { self.stats.hit("abort_in_tainted_session_not_judged"); } else
-          { self.judge_diagnostic_abort(step, abort, &analysis, &before, &real, store_differs); }
+          // What holds regardless (C06): a writer blamed for its own earlier write.
+          let limited = tainted_before || unclaimed_bu_after_abort || slice.iter().any(|e| matches!(e, Ev::MidChange { .. }));
+          if limited { self.stats.hit("abort_in_tainted_session_not_judged"); }
+          self.judge_diagnostic_abort(step, abort, &analysis, &before, &real, store_differs, limited);
         }
         AbortKind::Other => { self.harness_error = Some(format!("unexpected panic outside the repository: {}", abort.info.short())); }
       }
@@ -898,7 +900,7 @@ impl<'a> Runner<'a> {
   /// A build aborted with a cycle / hidden-dependency / overlapping-write diagnostic: decide whether the violation
   /// exists in the current state (fine), is explained by recorded dependencies of tasks that were not yet validated
   /// in this session (stale-edge signature: a listed known finding or a violation), or is unexplained (violation).
-  fn judge_diagnostic_abort(&mut self, step: usize, abort: &Abort, an: &Analysis, before: &[Option<Val>], world_now: &[Option<Val>], store_differs: bool) {
+  fn judge_diagnostic_abort(&mut self, step: usize, abort: &Abort, an: &Analysis, before: &[Option<Val>], world_now: &[Option<Val>], store_differs: bool, limited: bool) {
     let prog = self.prog.clone();
     let world = world_now.to_vec();
     let mut clean = Clean::new(&prog, world);
@@ -920,9 +922,10 @@ impl<'a> Runner<'a> {
       _ => false,
     });
     if std::env::var("VERIF_DEBUG_JUDGE").is_ok() { eprintln!("JUDGE kind={:?} all={:?} world_now={:?} before={:?} ill_now={:?} ill_rev={:?} ill_b={:?} ill_brev={:?} order_now={:?}", abort.kind, all, world_now, before, clean.ill, clean_rev.ill, clean_b.ill, clean_b_rev.ill, clean.order); }
-    if exists_now { self.stats.hit("abort_for_existing_violation"); return; }
+    if exists_now && !limited { self.stats.hit("abort_for_existing_violation"); return; }
     let props: Vec<&str> = if self.aborted_earlier { vec!["C19", "C20"] } else { vec!["C20"] };
     let Some((t, op, target)) = an.open_op else {
+      if limited { return; }
       self.viol(&props, "abort-without-site", step, format!("diagnostic abort outside any context call: {}", abort.info.short()));
       return;
     };
@@ -950,6 +953,7 @@ impl<'a> Runner<'a> {
           }
         }
       }
+      _ if limited => { return; }
       (AbortKind::Hidden, OpK::Write | OpK::WriteVia, Target::Res(r)) => {
         let ri = prog.res_index(r);
         for x in (0..ntasks).filter(|x| *x != t && reads(*x, r)) {
@@ -993,6 +997,7 @@ impl<'a> Runner<'a> {
       }
       _ => {}
     }
+    if limited { return; }
     // In a bottom-up build a stale record of a task that is still scheduled, and that the aborting task (transitively)
     // required, should have been replaced first: that is an ordering failure, not a stale-edge finding.
     if cause.is_some() {
